@@ -10,6 +10,7 @@ import (
 	"os"
 
 	hio "github.com/hprose/hprose-golang/v3/io"
+	"github.com/hprose/hprose-golang/v3/rpc/plugins/cluster"
 	"github.com/hprose/hprose-golang/v3/rpc/plugins/loadbalance"
 	"github.com/hprose/hprose-golang/v3/rpc/socket"
 	"github.com/hprose/hprose-golang/v3/rpc/udp"
@@ -79,6 +80,12 @@ func run(c *gcase) (o gobs) {
 		o.Out = []int64{int64(i), b2i(ok)}
 	case "io_utf16Length":
 		o.Out = []int64{int64(hio.VerifUTF16Length(string(h)))}
+	case "cluster_getIndex":
+		r, cell := cluster.VerifGetIndex(c.X, c.Y)
+		o.Out = []int64{r, cell}
+	case "rr_getIndex":
+		r, cell := loadbalance.VerifRRGetIndex(c.X, c.Y)
+		o.Out = []int64{r, cell}
 	case "lb_gcd":
 		o.Out = []int64{loadbalance.VerifGCD(c.X, c.Y)}
 	default:
